@@ -48,6 +48,7 @@ def cfg_text(c, invariants=(), properties=(), dump=False):
     for k in ["MaxFiles", "MaxDepth", "MaxFaults"]:
         lines.append("  %s = %d" % (k, c[k]))
     lines.append('  InitWorld = "%s"' % c["InitWorld"])
+    lines.append("  CloneProbes = %s" % ("TRUE" if c.get("CloneProbes") else "FALSE"))
     lines += ["VIEW View", "CHECK_DEADLOCK FALSE"]
     if dump:
         lines.append("ACTION_CONSTRAINT EdgeDump")
